@@ -368,6 +368,7 @@ func check(c *pbt.Ctx, cs Case) {
 		ty := tm.TypeAt(cs.U, cs.U.Root, x.path)
 		checkForeach(e, cs, opts, n, tv, x, ty)
 		checkMany(e, cs, opts, n, x, &rnd)
+		checkDeepTree(e, cs, opts, n, x, &rnd)
 		checkChildren(e, cs, opts, n, x)
 		checkInterface(e, cs, opts, n, tv, x)
 	}
